@@ -185,10 +185,71 @@ pub fn run_bin(toks: &[&str], dir: &Path) -> String {
             let _ = child.wait();
             format!("res={} same={}", status.code().unwrap_or(-1), same as u8)
         }
+        "dirs" => {
+            // which directory serves reads and which takes writes, for the directory options given (the real binary's argv glue,
+            // Config::new's fall-backs and the server's use of the two directories)
+            let opts: Vec<&str> = toks[2].split(',').collect();
+            for (d, f, seed) in [("srv", "in_srv.txt", 1u64), ("rcv", "in_rcv.txt", 2), ("snd", "in_snd.txt", 3)] {
+                std::fs::write(root.join(d).join(f), pattern(seed, 40)).unwrap();
+            }
+            let port = free_port();
+            let mut args = vec!["-i".to_string(), "127.0.0.1".into(), "-p".into(), port.to_string()];
+            for o in &opts {
+                match *o {
+                    "d" => args.extend(["-d".to_string(), root.join("srv").to_str().unwrap().into()]),
+                    "rd" => args.extend(["-rd".to_string(), root.join("rcv").to_str().unwrap().into()]),
+                    "sd" => args.extend(["-sd".to_string(), root.join("snd").to_str().unwrap().into()]),
+                    _ => {}
+                }
+            }
+            // without -d the directory is the working directory: run the server inside srv
+            let mut child = Command::new(bin("VERIF_TFTPD")).args(&args).current_dir(root.join("srv")).stdout(Stdio::null()).stderr(Stdio::null()).spawn().unwrap();
+            std::thread::sleep(Duration::from_millis(150));
+            let mut out = vec![];
+            let mut buf = [0u8; 1024];
+            for (tag, f, seed) in [("S", "in_srv.txt", 1u64), ("R", "in_rcv.txt", 2), ("N", "in_snd.txt", 3)] {
+                let sock = UdpSocket::bind("127.0.0.1:0").unwrap();
+                sock.set_read_timeout(Some(Duration::from_millis(800))).unwrap();
+                let rq = Packet::Rrq { filename: f.into(), mode: "octet".into(), options: vec![] };
+                sock.send_to(&rq.serialize().unwrap(), ("127.0.0.1", port)).unwrap();
+                let r = match sock.recv_from(&mut buf) {
+                    Ok((n, tid)) if n >= 4 && buf[1] == 3 => {
+                        let ok = buf[4..n] == pattern(seed, 40)[..];
+                        let _ = sock.send_to(&Packet::Ack(1).serialize().unwrap(), tid);
+                        if ok { "D".to_string() } else { "D?".to_string() }
+                    }
+                    Ok((n, _)) if n >= 4 && buf[1] == 5 => format!("E{}", buf[3]),
+                    Ok(_) => "other".to_string(),
+                    Err(_) => "none".to_string(),
+                };
+                out.push(format!("{tag}:{r}"));
+            }
+            // an upload: where does it land?
+            let sock = UdpSocket::bind("127.0.0.1:0").unwrap();
+            sock.set_read_timeout(Some(Duration::from_millis(800))).unwrap();
+            let wq = Packet::Wrq { filename: "up.bin".into(), mode: "octet".into(), options: vec![] };
+            sock.send_to(&wq.serialize().unwrap(), ("127.0.0.1", port)).unwrap();
+            if let Ok((n, tid)) = sock.recv_from(&mut buf) {
+                if n >= 4 && buf[1] == 4 {
+                    let d = Packet::Data { block_num: 1, data: vec![7, 7, 7, 7, 7] };
+                    let _ = sock.send_to(&d.serialize().unwrap(), tid);
+                    let _ = sock.recv_from(&mut buf);
+                }
+            }
+            std::thread::sleep(Duration::from_millis(60));
+            let landed: Vec<&str> = ["srv", "rcv", "snd"].into_iter().filter(|d| root.join(d).join("up.bin").exists()).collect();
+            let _ = child.kill();
+            let _ = child.wait();
+            format!("{} up={}", out.join(","), if landed.is_empty() { "none".to_string() } else { landed.join("+") })
+        }
         _ => panic!("bad bin case"),
     };
     let _ = std::fs::remove_dir_all(&root);
     res
+}
+
+pub fn gen_bin_dirs() -> Vec<String> {
+    ["d", "d,rd", "d,sd", "rd,sd", "d,rd,sd", "rd", "sd", "rd,d", "sd,d", "sd,rd,d"].iter().map(|o| format!("bin dirs {o}")).collect()
 }
 
 pub fn gen_bin(_rng: &mut Rng, _count: u64, tier: &str) -> Vec<String> {
@@ -236,5 +297,6 @@ pub fn gen_bin(_rng: &mut Rng, _count: u64, tier: &str) -> Vec<String> {
         out.push("bin xfer s u 8 16 530000 4".into());
         out.push("bin rt - 3".into());
     }
+    out.extend(gen_bin_dirs());
     out
 }
